@@ -23,7 +23,7 @@ def rust_ty(f):
         if sp == "boxed":
             return f"Box<Option<{base}>>"
         if sp == "alias":
-            return {"u8": "OptU8", "String": "OptString"}[base]
+            return {"u8": "OptU8", "String": "OptString"}.get(base) or ("Opt" + base)      # nested types: aliases generated next to them
         if sp == "generic":
             return "G" + str(f["idx"])
         return f"Option<{base}>"
@@ -35,7 +35,7 @@ def generic_params(fields):
     out = []
     for f in fields:
         if f["opt"] and f["ty"] != "cu" and f.get("osp") == "generic" and not f.get("skip"):
-            base = {"u8": "u8", "str": "String"}[f["ty"]]
+            base = {"u8": "u8", "str": "String"}.get(f["ty"]) or NESTED[f["ty"]]
             out.append(("G" + str(f["idx"]), f"Option<{base}>"))
     return out
 
@@ -202,20 +202,30 @@ PRELUDE_SCHEMAS = None
 INST = {}
 
 
-def generate(schemas, seed, nested_defs):
-    """schemas: list of schema dicts (index = sid).  Returns the Rust source of gen_types.rs."""
+def generate(schemas, seed, nested_defs, exclude=()):
+    """schemas: list of schema dicts (index = sid).  Returns the Rust source of gen_types.rs.  `exclude`: sids whose derived code
+    does not compile against the current repository (they are left out and reported by the caller)."""
     out = ["// @generated by gen/schema2rs.py from schemas emitted by TLC (spec/MC_Derive.tla) - do not edit",
            "#![allow(non_camel_case_types, dead_code, unused_parens, clippy::all)]",
            "use crate::prelude::*;", "use serde_json::{json, Value};", ""]
     for nm, s in nested_defs.items():
         out.append(gen_type(nm, s, seed))
+        out.append(f"pub type Opt{nm} = Option<{nm}>;")
         out.append("")
     for i, s in enumerate(schemas):
+        out.append(f"// @sid {i}")
+        if i in exclude:
+            out.append("")
+            continue
         out.append(gen_type(f"T{i}", s, seed))
         out.append("")
+    out.append("// @sid end")
     out.append("pub fn run(sid: usize, op: &str, input: &Value) -> Value {")
     out.append("    match sid {")
     for i in range(len(schemas)):
+        if i in exclude:
+            out.append(f"        {i} => json!({{\"p\": \"uncompilable\"}}),")
+            continue
         out.append(f"        {i} => exec::<{INST.get(f'T{i}', f'T{i}')}>(op, input),")
     out.append("        _ => json!({\"p\": \"unsupported\"})")
     out.append("    }")
